@@ -369,12 +369,18 @@ def run_shard(spec, rec):
 
 
 RULE = ("generated condition() blocks: blocking/nonblocking x priority x with/without default, 1-4 branches with overlapping conditions, callees shared across "
-        "branches and with 1-2 outside transactions, placed in a transaction or in a host method called plainly / under If / with enable_call, directly or through an intermediate method; all input "
-        "valuations when <= 10 input bits, biased random otherwise; oracle: clauses (1)-(5) of DESIGN.md C12 plus the C04 consistency condition (a merged "
-        "call without its enable shows as a method running without an active call); distinct non-trivial case = (configuration, number of true "
-        "conditions, branch that ran, body ran)")
+        "branches and with 1-2 outside transactions, placed in a transaction or in a host method called plainly / under If / with enable_call, directly or through an "
+        "intermediate method; 30% of the callees take an argument checked by validate_arguments (argument bit = input); 35% of the designs nest a second condition() "
+        "(1-2 branches, own flags) inside one branch, whose own callee list is empty in half of these; the netlist of every design is first checked for combinational "
+        "cycles (Amaranth's build_netlist); all input valuations when <= 10 input bits, biased random otherwise; oracle: clauses (1)-(5) of DESIGN.md C12 on both levels "
+        "(ready = ready and argument accepted), nested branch bodies run only with their enclosing body, the C04 consistency condition (a merged call without its enable "
+        "shows as a method running without an active call) and the C07 consistency condition (with no outside transaction asking to run, body and caller run iff fully "
+        "enabled); distinct non-trivial case = (configuration, number of true conditions, branch that ran, nested branch that ran, body ran)")
 ASSUMPTIONS = ["with shared callees a skipped earlier admissible branch is excused only if an outside transaction sharing one of its callees ran in that cycle",
-               "nested condition() blocks are not generated"]
+               "when a conditionally called host is not called in a cycle, only the bounds 'everything enabled => caller runs' and 'caller runs => host and caller ready' are asserted",
+               "condition() nesting depth <= 2"]
 MINIMA = {"quick": {"cycles": 20000, "cycles_with_two_or_more_conditions_true": 3000, "cycles_with_true_condition_but_unready_callee": 3000, "body_ran_without_branch": 200,
-                    "priority_branch_runs": 1000, "branch_index_0_ran": 1000, "branch_index_3_ran": 20, "distinct": 300},
+                    "priority_branch_runs": 1000, "branch_index_0_ran": 1000, "branch_index_3_ran": 20, "nested_branch_runs": 200, "designs_with_nested_condition": 20,
+                    "branch_runs_calling_a_validated_method": 100, "cycles_with_true_condition_but_rejected_argument": 300, "unopposed_cycles": 5000,
+                    "cycles_with_host_not_called": 1000, "distinct": 300},
           "thorough": {"cycles": 2000000, "distinct": 2000}}
